@@ -280,6 +280,11 @@ def _pure_value(e, depth=0):
         return len(st) == 1 and st[0].get("s") == "expr" and not st[0].get("semi") and _pure_value(st[0]["e"], depth + 1)
     if k == "match":
         return all(_pure_value(a.get("body"), depth + 1) for a in e.get("arms") or [])
+    if k == "tuple":
+        return all(_pure_value(x, depth + 1) for x in e.get("elems") or [])
+    if k == "call" and (e.get("f") or {}).get("e") == "path" and re.match(r"[A-Z]", lastseg(e["f"].get("p", "x"))):
+        # a variant / tuple-struct constructor over names: `SymbolicByteCode::Invoke((slot, args))`
+        return all(_pure_value(x, depth + 1) for x in e.get("args") or [])
     return False
 
 
